@@ -22,7 +22,7 @@ _BD = "AutoCarver/discretizers/utils/base_discretizers.py"
 ANCHORS = [(_BD, "transform_quantitative_feature"), (_BD, "BaseDiscretizer._transform_qualitative"), (_BD, "BaseDiscretizer._get_labels_per_values"),
            (_BD, "format_quantiles"), (_BD, "get_labels"), ("AutoCarver/discretizers/utils/type_discretizers.py", "fit_feature")]
 DECIDING_ANCHORS = [(_BD, "transform_quantitative_feature"), (_BD, "BaseDiscretizer._get_labels_per_values")]
-N = {"quick": 800, "thorough": 20000}
+N = {"quick": 1000, "thorough": 20000}
 REQUIRED_COUNTERS = {"quick": {"rows_compared": 50000, "features_checked": 600, "close_boundaries_features": 10, "numeric_category_features": 15},
                      "thorough": {"rows_compared": 1000000, "features_checked": 12000, "close_boundaries_features": 200, "numeric_category_features": 300}}
 
